@@ -2,7 +2,8 @@
 """regenerate MANIFEST.json from harness/meta.json (single source of truth for per-property texts)"""
 import json, os
 V = os.path.dirname(os.path.dirname(os.path.abspath(__file__)))
-meta = json.load(open(os.path.join(V, "harness", "meta.json")))
+import glob
+meta = {os.path.basename(f)[:-5]: json.load(open(f)) for f in glob.glob(os.path.join(V, "harness", "meta.d", "C*.json"))}
 props = [json.loads(l) for l in open(os.path.join(V, "properties.jsonl"))]
 checks = []; na = []
 for p in props:
